@@ -152,5 +152,13 @@ CLAIMS["C14"]["text"] += " H-cancel/time: the same with time-based batching; sca
 CLAIMS["C10"]["text"] += (" H-role: each CLI command that can act as submitter (try-submit-jobs, cancel-jobs, resubmit-jobs, show-status) run while another process on the same or another host holds the role, "
                           "on a complete or incomplete submission: role, state and HPC untouched, no lock left, the holder's next write accepted. H-submit/double-recovery: two overlapping try-submit-jobs on one host.")
 
+CLAIMS["C13"]["text"] += (" H-resubmit/twice: the completed resubmission (exit codes of the rerun solver-chosen, so jobs fail or are canceled again) is resubmitted a second time with solver-chosen flags; "
+                          "same oracles in both rounds plus counters == total after each completion. H-resubmit/fault: ONE injected error inside resubmit-jobs at a solver-chosen position - EDQUOT at each write-open "
+                          "of a result file or submitter_groups.json, lock Timeout at each lock acquisition before the submission round, sbatch failing on every retry - under the installed filelock's behaviour (stale markers broken); "
+                          "violation = rows of the first run pruned AND no way forward, where a way forward means: repeating the same resubmit-jobs is accepted, the documented try-submit-jobs/resubmit-jobs lead to a complete submission with "
+                          "one successful entry per job, rows of never-rerun jobs unchanged.")
+CLAIMS["C13"]["note"] += (" Fault positions outside the claim (stated, counted in evidence notes): the final role release itself, errors raised inside the submission round (C11's subject: fail-stop refusal accepted), and EDQUOT while "
+                          "Cluster.prepare_for_resubmission writes the four cluster state files (JADE's designed fail-stop for an unknown shared state: version mismatch / deliberate deadlock).")
+
 _TODO = "check not built yet in this session (planned in DESIGN.md section 6); not claimed until it exists"
 NOT_APPLICABLE = {}
